@@ -96,6 +96,7 @@ func (ex *exec) resolveLazyFor(n *jnode, want []jkind, structKeys []string, with
 	case jFloat:
 		v := sym{ex.freshVar("jnum", SF64), types.Float64}
 		ex.assertPC(tt.Not(tt.Or(tt.FIsNaN(v.t), tt.FIsInf(v.t))))
+		tt.nonNaN[v.t.id] = true
 		r = &jnode{kind: jFloat, v: v}
 	case jStr:
 		r = &jnode{kind: jStr, v: sym{ex.freshVar("jstr", SStr), types.String}}
